@@ -63,7 +63,9 @@ def harmonic_walls(draw, cvs, name="w1"):
         per = cvs[i].get("periodic")
         scale = 0.2 * per if per else 2.0
         a = rnd(draw(fl(-1.0, 1.0)) * scale, 4)
-        gap = rnd(draw(fl(0.1, 1.0)) * scale, 4)
+        # for a periodic variable the allowed interval may cover most of the period: the nearer wall can then be the one across
+        # the periodic boundary
+        gap = rnd(draw(fl(0.1, 4.5 if per else 1.0)) * scale, 4)
         lo.append(a)          # lower wall at value + a
         up.append(a + gap)    # upper wall at value + a + gap
     return {"type": "harmonicWalls", "name": name, "cvs": idx, "sides": sides, "lo": lo, "up": up,
@@ -111,11 +113,14 @@ def render_bias(b, cvs, values, widths=None):
         L.append("  centers " + " ".join(cs))
         L.append("  forceConstant %s" % fmt(b["k"]))
     elif t == "harmonicWalls":
+        def wall(i, a):
+            # walls are written unwrapped (the library requires upper > lower numerically also for periodic variables)
+            return values[i][0] + a
         if b["sides"] in ("lower", "both"):
-            L.append("  lowerWalls " + " ".join(fmt(values[i][0] + a) for i, a in zip(b["cvs"], b["lo"])))
+            L.append("  lowerWalls " + " ".join(fmt(wall(i, a)) for i, a in zip(b["cvs"], b["lo"])))
             L.append("  lowerWallConstant %s" % fmt(b["klo"]))
         if b["sides"] in ("upper", "both"):
-            L.append("  upperWalls " + " ".join(fmt(values[i][0] + a) for i, a in zip(b["cvs"], b["up"])))
+            L.append("  upperWalls " + " ".join(fmt(wall(i, a)) for i, a in zip(b["cvs"], b["up"])))
             L.append("  upperWallConstant %s" % fmt(b["kup"]))
     elif t == "histogramRestraint":
         i = b["cvs"][0]
